@@ -6,15 +6,25 @@ PROP = "C16"
 LEVEL = "other"
 H = "vf.contracts.c_layout."
 PS = "a816.parse.parser_states."
-FUNCTIONS = [PS + "parse_opcode", PS + "parse_operand_and_addressing", PS + "parse_decl", "a816.parse.nodes.OpcodeNode.__init__", "a816.parse.codegen.generate_block"]
-MIN_OBLIGATIONS = 30
-EXPLANATION = ("Single-run facts proved on the real code: parse_opcode lower-cases the size suffix and the index registers (outer and inside the "
+FUNCTIONS = [PS + "parse_opcode", PS + "parse_operand_and_addressing", PS + "parse_decl", "a816.parse.nodes.OpcodeNode.__init__", "a816.parse.codegen.generate_block"] + \
+            ["a816.parse.scanner.Scanner." + n for n in ("scan", "next", "backup", "peek", "accept", "accept_prefix", "accept_run", "ignore", "ignore_run", "emit", "get_token", "current_token_text")] + \
+            ["a816.parse.scanner_states." + n for n in ("lex_initial", "accept_opcode", "lex_opcode", "lex_opcode_size", "lex_operand", "lex_expression", "lex_number", "lex_identifier",
+                                                         "lex_opcode_index", "lex_keyword")]
+MIN_OBLIGATIONS = 500
+EXPLANATION = ("SPACES AND COMMENTS, ANY AMOUNT: the real Scanner.scan is executed on statement texts in which every gap where the statement allows white space "
+               "(indentation incl. blank lines, after the mnemonic / size suffix, inside brackets, around operators and commas, trailing) holds a run of SYMBOLIC length, "
+               "and `;` / `/* */` comments hold ANY text: the token list (types and texts) is proved to be the one of the densely written statement (+ a COMMENT token the "
+               "parser is proved to drop).  18 statement forms: 7 operand shapes, size suffix, implied, data directive, label, assignment, *=, two statements with blank "
+               "lines, end-of-line / full-line / after-operand `;` comments, block comment.  Scanner loops are cut at quantified invariants (every position consumed so far "
+               "matches), the driver and lex_expression loops are unrolled.  Single-run facts proved on the real code: parse_opcode lower-cases the size suffix and the index registers (outer and inside the "
                "parentheses) for token values in EITHER case (symbolic letters) and the addressing mode does not depend on the case; OpcodeNode "
                "lower-cases the mnemonic; a COMMENT token yields no statement; an included file's AST is spliced as a plain block without a scope; "
                "whitespace runs and both comment forms are skipped by the scanner with correct bookkeeping (C15/C17 contracts).  That ANY composition of "
                "the listed presentation changes leaves bytes, offsets and symbols unchanged is the bounded metamorphic part, through the real pipeline.")
 TRUSTED = ["the scanner contracts of C15/C17 (whitespace / comment skipping)"]
-ASSUMPTIONS = ["composition of single-run facts to full layout independence is argued, not machine-checked",
+ASSUMPTIONS = ["the space/comment obligations are stated per statement FORM (18 forms with fixed literal operands); that other operands / mnemonics behave alike is covered by the "
+               "bounded re-layout sweep; block-comment text is any text without `*`",
+               "composition of single-run facts to full layout independence is argued, not machine-checked",
                "bounded: every listed presentation change applied at every applicable position of generated programs and sample sources, outputs and symbols compared"]
 
 
@@ -58,8 +68,170 @@ def shape_include(B):
     return {"block": blk, "resolver": res, "tok": S.tok(B, "KEYWORD", "include"), "names": B.list(["a", "b"])}
 
 
+# ------------------------------------------------------------------------------------------------ any number of spaces in every gap
+SC = "a816.parse.scanner.Scanner."
+LX = "a816.parse.scanner_states."
+# statement -> list of pieces: a string is literal text (one token or part of one), "_" a gap that may hold any number (>= 0) of spaces,
+# "__" a gap that needs at least one; tokens: (type, text) expected
+SPACED = {
+    "lda (0x10 + 1),y": (["_n", "lda", "__", "(", "_", "0x10", "_", "+", "_", "1", "_", ")", "_", ",", "_", "y", "_t"],
+                         [("OPCODE", "lda"), ("LPAREN", "("), ("NUMBER", "0x10"), ("OPERATOR", "+"), ("NUMBER", "1"), ("RPAREN", ")"), ("ADDRESSING_MODE_INDEX", "y")]),
+    "lda (0x10),y": (["_n", "lda", "__", "(", "_", "0x10", "_", ")", "_", ",", "_", "y", "_t"],
+                     [("OPCODE", "lda"), ("LPAREN", "("), ("NUMBER", "0x10"), ("RPAREN", ")"), ("ADDRESSING_MODE_INDEX", "y")]),
+    "lda.w 0x10,x": (["_n", "lda", ".", "w", "_", "0x10", "_", ",", "_", "x", "_t"],
+                     [("OPCODE", "lda"), ("OPCODE_SIZE", "w"), ("NUMBER", "0x10"), ("ADDRESSING_MODE_INDEX", "x")]),
+    "lda #0x12": (["_n", "lda", "__", "#", "_", "0x12", "_t"], [("OPCODE", "lda"), ("SHARP", "#"), ("NUMBER", "0x12")]),
+    "sta [0x10],y": (["_n", "sta", "__", "[", "_", "0x10", "_", "]", "_", ",", "_", "y", "_t"],
+                     [("OPCODE", "sta"), ("LBRAKET", "["), ("NUMBER", "0x10"), ("RBRAKET", "]"), ("ADDRESSING_MODE_INDEX", "y")]),
+    "lda (0x10,x)": (["_n", "lda", "__", "(", "_", "0x10", "_", ",", "_", "x", "_", ")", "_t"],
+                     [("OPCODE", "lda"), ("LPAREN", "("), ("NUMBER", "0x10"), ("ADDRESSING_MODE_INDEX", "x"), ("RPAREN", ")")]),
+    "jmp label+1": (["_n", "jmp", "__", "label", "_", "+", "_", "1", "_t"], [("OPCODE", "jmp"), ("IDENTIFIER", "label"), ("OPERATOR", "+"), ("NUMBER", "1")]),
+    "nop": (["_n", "nop", "_t"], [("OPCODE_NAKED", "nop")]),
+    ".db 0x01, 0x02": (["_n", ".", "db", "_n", "0x01", "_n", ",", "_n", "0x02", "_t"], [("KEYWORD", "db"), ("NUMBER", "0x01"), ("COMMA", ","), ("NUMBER", "0x02")]),
+    "name:": (["_n", "name", ":", "_t"], [("LABEL", "name")]),
+    "x = 0x10 + 2": (["_n", "x", "_n", "=", "_n", "0x10", "_n", "+", "_n", "2", "_t"], [("IDENTIFIER", "x"), ("EQUAL", "="), ("NUMBER", "0x10"), ("OPERATOR", "+"), ("NUMBER", "2")]),
+    "*= 0x8000": (["_n", "*=", "_n", "0x8000", "_t"], [("STAR_EQ", "*="), ("NUMBER", "0x8000")]),
+    "two statements, blank lines between": (["_n", "lda", "__", "#", "_", "0x12", "_t", "\n", "_n", "rts", "_t"],
+                                            [("OPCODE", "lda"), ("SHARP", "#"), ("NUMBER", "0x12"), ("OPCODE_NAKED", "rts")]),
+    "end-of-line ; comment (any text)": (["_n", "nop", "_t", ";", ";c", "\n", "_n", "rts", "_t"], [("OPCODE_NAKED", "nop"), ("COMMENT", None), ("OPCODE_NAKED", "rts")]),
+    "full-line ; comment (any text)": (["_n", "nop", "_t", "\n", "_n", ";", ";c", "\n", "_n", "rts", "_t"], [("OPCODE_NAKED", "nop"), ("COMMENT", None), ("OPCODE_NAKED", "rts")]),
+    "; comment after an operand": (["_n", "lda", "__", "#", "_", "0x12", "_t", ";", ";c", "\n", "_n", "rts"], [("OPCODE", "lda"), ("SHARP", "#"), ("NUMBER", "0x12"), ("COMMENT", None), ("OPCODE_NAKED", "rts")]),
+    "/* */ comment between statements (any text without *)": (["_n", "nop", "_t", "\n", "_n", "/*", "/*c", "*/", "_n", "rts", "_t"],
+                                                               [("OPCODE_NAKED", "nop"), ("COMMENT", None), ("OPCODE_NAKED", "rts")]),
+}
+
+
+def shape_spaced(name):
+    def sh(B):
+        from vf.pyvc.values import FuncVal
+        pieces, toks = SPACED[name]
+        ps = []
+        for k, x in enumerate(pieces):
+            if x == "_n":
+                ps.append(("run", f"indent{k}", " \t\n", 0))
+            elif x == "_t":
+                ps.append(("run", f"trailing{k}", " \t", 0))
+            elif x == "_":
+                ps.append(("run", f"gap{k}", " ", 0))
+            elif x == "__":
+                ps.append(("run", f"gap{k}", " ", 1))
+            elif x == ";c":
+                ps.append(("chars", f"comment{k}", 1, 0x10FFFF, "\n", 0))  # any comment text: every character but the line end (and NUL, the scanner's end marker)
+            elif x == "/*c":
+                ps.append(("chars", f"comment{k}", 1, 0x10FFFF, "*", 0))  # any text without `*` (hence without the terminator), line ends included
+            else:
+                ps.append(("lit", x))
+        text, _spans = B.text("input", ps)
+        sc = B.inst("a816.parse.scanner.Scanner", initial_state=FuncVal(LX + "lex_initial"), tokens=B.list([]), line_offset=0, current_line=0, pos=0, start=0)
+        return {"s": sc, "name": "t.s", "text": text, "expected_types": B.list([B.enum("a816.parse.tokens.TokenType", t) for t, _ in toks] + [B.enum("a816.parse.tokens.TokenType", "EOF")]),
+                "expected_values": B.list([v for _, v in toks] + [""])}  # None: the token's text is not constrained (comment text)
+    return sh
+
+
+def _inv_accept_run_exact(I, st):
+    """positions pos0 .. pos-1 all match (are / are not in `candidates`), the run started where the call started; nothing else moved"""
+    import z3
+    from vf.pyvc.values import to_z3int
+    o = I.hget(st, st.env["self"]).fields
+    g = I.hget(st, st.env["g"]).items
+    inp = o["input"]
+    pos, pos0 = to_z3int(o["pos"]), to_z3int(g["pos0"])
+    cands, negate = st.env["candidates"], st.env["negate"]
+    j = z3.Int("j!run")
+    inset = z3.Or(*[inp.at(j) == ord(c) for c in cands])
+    match = z3.Not(inset) if negate else inset
+    return z3.And(pos0 <= pos, pos <= to_z3int(inp.length), z3.ForAll([j], z3.Implies(z3.And(pos0 <= j, j < pos), match)))
+
+
+def _var_accept_run(I, st):
+    from vf.pyvc.values import to_z3int
+    o = I.hget(st, st.env["self"]).fields
+    return to_z3int(o["input"].length) - to_z3int(o["pos"])
+
+
+def _havoc_accept_run(I, st):
+    """accept_run moves pos (and, through next(), the line bookkeeping); start and the token list are untouched"""
+    from vf.pyvc.values import HSymList, Opaque
+    s = st.env["self"]
+    o = I.hmut(st, s)
+    for fld in ("pos", "line_offset", "current_line"):
+        o.fields[fld] = I.fresh_int(fld)
+    f = o.fields.get("file")
+    if f is not None:
+        lines = I.hget(st, f).fields["lines"]
+        n = I.fresh_int("lines_len")
+        st.pc.append(n >= 0)
+        st.heap[lines.oid] = HSymList(n, lambda I2, s2, idx: Opaque("line"), what="lines")
+
+
+def _modifies_accept_run(I, st):
+    s = st.env["self"]
+    f = I.hget(st, s).fields.get("file")
+    out = {s.oid}
+    if f is not None:
+        out |= {f.oid, I.hget(st, f).fields["lines"].oid}
+    return out
+
+
+def _inv_semicolon_comment(I, st):
+    """every character consumed so far by the `;` comment loop is not a line end"""
+    import z3
+    from vf.pyvc.values import to_z3int
+    o = I.hget(st, st.env["s"]).fields
+    g = I.hget(st, st.env["g"]).items
+    inp = o["input"]
+    pos, pos0 = to_z3int(o["pos"]), to_z3int(g["pos0"])
+    j = z3.Int("j!semi")
+    return z3.And(pos0 <= pos, pos <= to_z3int(inp.length), z3.ForAll([j], z3.Implies(z3.And(pos0 <= j, j < pos), inp.at(j) != 10)))
+
+
+def _inv_block_comment(I, st):
+    """no terminator starts at any position consumed so far by the `/* */` loop"""
+    import z3
+    from vf.pyvc.values import to_z3int
+    o = I.hget(st, st.env["s"]).fields
+    g = I.hget(st, st.env["g"]).items
+    inp = o["input"]
+    pos, pos0 = to_z3int(o["pos"]), to_z3int(g["pos0"])
+    j = z3.Int("j!blk")
+    return z3.And(pos0 <= pos, pos <= to_z3int(inp.length), z3.ForAll([j], z3.Implies(z3.And(pos0 <= j, j < pos), z3.Not(z3.And(inp.at(j) == 42, inp.at(j + 1) == 47)))))
+
+
+def _havoc_s(I, st):
+    st.env["self"] = st.env["s"]
+    try:
+        _havoc_accept_run(I, st)
+    finally:
+        del st.env["self"]
+
+
+def _modifies_s(I, st):
+    st.env["self"] = st.env["s"]
+    try:
+        return _modifies_accept_run(I, st)
+    finally:
+        del st.env["self"]
+
+
+def _var_s(I, st):
+    from vf.pyvc.values import to_z3int
+    o = I.hget(st, st.env["s"]).fields
+    return to_z3int(o["input"].length) - to_z3int(o["pos"])
+
+
+def spaced_loop_specs():
+    from vf.pyvc.loops import LoopSpec
+    gs = lambda I, st: {"pos0": I.hget(st, st.env["s"]).fields["pos"]}
+    return {(LX + "lex_initial", 0): LoopSpec("lex_initial#semicolon-comment#exact", _inv_semicolon_comment, variant=_var_s, havoc=_havoc_s, modifies=_modifies_s, ghost=gs),
+            (LX + "lex_initial", 1): LoopSpec("lex_initial#block-comment#exact", _inv_block_comment, variant=_var_s, havoc=_havoc_s, modifies=_modifies_s, ghost=gs),
+            (SC + "accept_run", 0): LoopSpec("Scanner.accept_run#exact", _inv_accept_run_exact, variant=_var_accept_run, havoc=_havoc_accept_run, modifies=_modifies_accept_run,
+                                              ghost=lambda I, st: {"pos0": I.hget(st, st.env["self"]).fields["pos"]})}
+
+
 def cases(E):
-    cs = []
+    cs = [Case(H + "scan_statement_contract", f"`{n}` with any number of spaces in every gap", shape_spaced(n), loop_specs=spaced_loop_specs(), timeout_ms=60000,
+               target=[SC + "scan", SC + "accept_run", LX + "lex_initial", LX + "lex_opcode", LX + "lex_operand", LX + "lex_expression", LX + "lex_number", LX + "lex_opcode_index", LX + "lex_opcode_size"],
+               group="spaces") for n in SPACED]
     for shape in ("direct", "direct_indexed", "dp_indirect_indexed", "indirect_indexed"):
         for ws in (False, True):
             cs.append(Case(H + "parse_opcode_case_contract", f"{shape}, size suffix={ws}", shape_opcode(shape, ws), target=[PS + "parse_opcode", PS + "parse_operand_and_addressing"]))
@@ -79,10 +251,16 @@ def bounded(tier, seed):
     return native_call("b_C16.py", {"tier": tier, "seed": seed}, timeout=3000)
 
 
+QUICK_MUTANTS = 5  # the remaining ones (slow: a mutated scanner explodes into many paths) run in the thorough tier
+
+
 def mutants():
     from vf.pyvc.mutate import textual
     return [
+        Mutant("lex_opcode_index:no-spaces-after-the-comma", LX + "lex_opcode_index", textual("    s.ignore_run(' ')\n", ""), only_harness="scan_statement", only_label="`lda.w 0x10,x` with", max_cases=1),
+        Mutant("lex_initial:tabs-not-skipped", LX + "lex_initial", textual("s.ignore_run(' \\t\\n')", "s.ignore_run(' \\n')"), only_harness="scan_statement", only_label="`nop` with", max_cases=1),
         Mutant("parse_opcode:size-not-lower-cased", PS + "parse_opcode", textual("size = p.current().value.lower()", "size = p.current().value"), only_harness="parse_opcode"),
         Mutant("parse_operand:inner-index-not-lower-cased", PS + "parse_operand_and_addressing", textual("inner_index = p.current().value.lower()", "inner_index = p.current().value"), only_harness="parse_opcode"),
         Mutant("parse_decl:comment-not-consumed", PS + "parse_decl", textual("    current_token = p.next()\n    if accept_token(current_token, TokenType.COMMENT):\n        return None", "    current_token = p.next()\n    if accept_token(current_token, TokenType.COMMENT):\n        p.backup()\n        return None"), only_harness="comment"),
+        Mutant("lex_expression:spaces-not-skipped", LX + "lex_expression", textual("        s.ignore_run(' ')\n", ""), only_harness="scan_statement", only_label="`lda (0x10 + 1),y` with", max_cases=1),
     ]
